@@ -20,7 +20,8 @@ Definition of_cached {F} (o : option F) : import_outcome F := match o with Some 
 
 (* what a decode sees: a cached entry wins over importing *)
 Definition cached_env (e : env) (k : caches) : env :=
-  {| comp_name := comp_name e;
+  {| registry := registry e;
+     comp_name := comp_name e;
      ud_import := fun m => match assoc (k_ud k) m with Some c => of_cached c | None => ud_import e m end;
      src_import := fun m => match assoc (k_src k) m with Some c => of_cached c | None => src_import e m end;
      co_import := fun m => match assoc (k_co k) m with Some c => of_cached c | None => co_import e m end |}.
